@@ -9,13 +9,47 @@ class BuildError(Exception):
     pass
 
 
+def _tree_digest():
+    """content hash of everything cargo compiles from /repo (not mtimes: a tree restored with old timestamps must still rebuild)"""
+    import hashlib
+    h = hashlib.sha256()
+    paths = []
+    for d, _dirs, files in os.walk(os.path.join(C.REPO, "src")):
+        paths += [os.path.join(d, f) for f in files]
+    paths += [os.path.join(C.REPO, f) for f in ("Cargo.toml", "Cargo.lock", "build.rs")]
+    for p in sorted(paths):
+        if os.path.isfile(p):
+            h.update(os.path.relpath(p, C.REPO).encode() + b"\0")
+            h.update(open(p, "rb").read())
+            h.update(b"\0")
+    return h.hexdigest()
+
+
 def build_impl():
-    """cargo build (dev profile) of /repo's current working tree with the hooks compiled in."""
+    """cargo build (dev profile) of /repo's current working tree with the hooks compiled in.  Cargo decides freshness by file
+    times; the harness decides it by content: when the tree's content hash differs from the one the cached binary was built from,
+    the crate's own artifacts are removed first, so the binary always is the working tree's."""
     with C.Lock("cargo"):
         env = {"RUSTFLAGS": RUSTFLAGS, "CARGO_TARGET_DIR": C.TARGET, "CARGO_NET_OFFLINE": "true"}
+        stamp = os.path.join(C.TARGET, "rbp-src.stamp")
+        digest = _tree_digest()
+        try:
+            built_from = open(stamp).read().strip()
+        except OSError:
+            built_from = None
+        if built_from != digest:
+            if os.path.isdir(C.TARGET):
+                C.run(["cargo", "clean", "--offline", "-p", "rusty-blockparser"], env=env, cwd=C.REPO)
+            try:
+                os.remove(stamp)
+            except OSError:
+                pass
         p = C.run(["cargo", "build", "--offline", "--quiet"], env=env, cwd=C.REPO)
         if p.returncode != 0:
             raise BuildError("cargo build with hooks failed:\n" + p.stderr.decode(errors="replace")[-3000:])
+        os.makedirs(C.TARGET, exist_ok=True)
+        with open(stamp, "w") as f:
+            f.write(digest)
     return C.IMPL
 
 
@@ -134,3 +168,60 @@ def grep_forbidden(files):
             if pat.search(line):
                 bad.append("%s:%d: %s" % (path, i, line.strip()))
     return bad
+
+
+# ---- change-directed effort (DESIGN §2.4) --------------------------------------------------------------------------------
+FINGERPRINTS = os.path.join(os.path.dirname(os.path.abspath(__file__)), "fingerprints.json")
+# files every whole-program run executes, whatever the property's anchors name
+PIPELINE = {"src/main.rs", "src/common/utils.rs", "src/blockchain/parser/mod.rs", "src/blockchain/parser/reader.rs", "src/blockchain/parser/index.rs",
+            "src/blockchain/parser/chain.rs", "src/blockchain/parser/blkfile.rs", "src/blockchain/parser/types.rs", "src/blockchain/proto/block.rs",
+            "src/blockchain/proto/tx.rs", "src/blockchain/proto/varuint.rs", "src/blockchain/proto/header.rs", "src/blockchain/proto/mod.rs",
+            "src/blockchain/proto/script/mod.rs", "src/blockchain/proto/script/custom.rs", "src/callbacks/common.rs", "src/callbacks/mod.rs"}
+
+
+def _normalise(text):
+    """source text with line comments, block comments and all whitespace removed: a comment-only or formatting-only edit is not a change"""
+    text = re.sub(r"/\*.*?\*/", "", text, flags=re.S)
+    text = re.sub(r"//[^\n]*", "", text)
+    return re.sub(r"\s+", "", text)
+
+
+def source_fingerprints():
+    import hashlib
+    out = {}
+    root = os.path.join(C.REPO, "src")
+    for d, _dirs, files in os.walk(root):
+        for f in files:
+            if f.endswith(".rs") and f != "verif_hooks.rs":
+                p = os.path.join(d, f)
+                out[os.path.relpath(p, C.REPO)] = hashlib.sha256(_normalise(open(p, errors="replace").read()).encode()).hexdigest()
+    return out
+
+
+def changed_sources():
+    """files of /repo's working tree whose normalised text differs from the tree the model was last reconciled with"""
+    import json
+    try:
+        base = json.load(open(FINGERPRINTS))["files"]
+    except (OSError, ValueError, KeyError):
+        return None
+    cur = source_fingerprints()
+    return sorted(f for f in set(base) | set(cur) if base.get(f) != cur.get(f))
+
+
+def effort_factor(prop):
+    """(factor, changed files): x4 when a file the property is anchored in moved, x2 when only shared pipeline code moved"""
+    import json
+    ch = changed_sources()
+    if not ch:
+        return 1, ch or []
+    anchors = set()
+    for l in open(os.path.join(C.VERIF, "properties.jsonl")):
+        pr = json.loads(l)
+        if pr["id"] == prop:
+            anchors = set(pr["anchors"]["files"])
+    if anchors & set(ch):
+        return 4, ch
+    if PIPELINE & set(ch) or any(f not in PIPELINE and not f.startswith("src/callbacks/") for f in ch):
+        return 2, ch
+    return 1, ch
